@@ -461,6 +461,27 @@ func fill(rng *lib.Rng, n int) ([]byte, string) {
 	return genBlock(rng.Intn(3), uint64(rng.Intn(1<<20)), n)
 }
 
+// wrapReads: offsets within 16 bytes of 2^32.  All of them end far beyond the
+// block and must be rejected; they exercise every place where the bound check
+// could be done in 32 bits: Offset+Len itself wraps (to 0, to a small value, to
+// exactly the block length), or Offset+Len does not wrap but adding the 12 bytes
+// of record framing to it does, or the file read offset fileOffset+8+Offset wraps
+// back into the record.
+func wrapReads(i, L int) []rd {
+	const top = 1 << 32
+	var rs []rd
+	for _, back := range []int{1, 4, 8, 11, 12, 13, 16} {
+		off := uint32(top - back)
+		for _, n := range []int{0, 1, back - 1, back, back + 1, back + L, back + L + 1, back + L/2, back + 8, back + 12} {
+			if n < 0 {
+				continue
+			}
+			rs = append(rs, rd{"region", i, off, uint32(n)})
+		}
+	}
+	return rs
+}
+
 // edgeReads lists the regions at/around every edge of block i of length L.
 func edgeReads(i, L int) []rd {
 	u := func(x int) uint32 {
@@ -516,12 +537,16 @@ func genBulk(rng *lib.Rng, lens []int, n int) bulk {
 			}
 			b.Reqs = keep
 		}
-	} else if rng.Chance(12) {
+	} else if rng.Chance(20) {
 		j := rng.Intn(len(b.Reqs))
-		if rng.Bool() {
+		switch rng.Intn(3) {
+		case 0:
 			b.Reqs[j].I = n + 3 // never stored
-		} else {
+		case 1:
 			b.Reqs[j].Off, b.Reqs[j].N = uint32(lens[b.Reqs[j].I]), 1 // one byte beyond
+		default: // offset near 2^32 (only meaningful for region requests)
+			w := wrapReads(b.Reqs[j].I, lens[b.Reqs[j].I])
+			b.Reqs[j] = w[rng.Intn(len(w))]
 		}
 	}
 	rng.Intn(2)
@@ -531,6 +556,16 @@ func genBulk(rng *lib.Rng, lens []int, n int) bulk {
 		}
 	}
 	return b
+}
+
+// pickRead chooses one read of block i: an edge region, or (15%) an offset near 2^32.
+func pickRead(rng *lib.Rng, i, L int) rd {
+	if rng.Chance(15) {
+		w := wrapReads(i, L)
+		return w[rng.Intn(len(w))]
+	}
+	er := edgeReads(i, L)
+	return er[rng.Intn(len(er))]
 }
 
 func genScenario(rng *lib.Rng, max uint32, ncommits int, oversize bool) *scenario {
@@ -595,15 +630,13 @@ func genScenario(rng *lib.Rng, max uint32, ncommits int, oversize bool) *scenari
 		}
 		// reads inside the transaction: pending and already stored blocks
 		for k := 0; k < nb; k++ {
-			er := edgeReads(stored+k, lens[stored+k])
 			for j := 0; j < 4; j++ {
-				o.Reads = append(o.Reads, er[rng.Intn(len(er))])
+				o.Reads = append(o.Reads, pickRead(rng, stored+k, lens[stored+k]))
 			}
 		}
 		if stored > 0 && rng.Chance(50) {
 			i := rng.Intn(stored)
-			er := edgeReads(i, lens[i])
-			o.Reads = append(o.Reads, er[rng.Intn(len(er))])
+			o.Reads = append(o.Reads, pickRead(rng, i, lens[i]))
 		}
 		o.Reads = append(o.Reads, rd{"fetch", stored + nb, 0, 0}) // never stored
 		// bulk call inside the transaction: pending and on-disk blocks mixed
@@ -629,8 +662,7 @@ func genScenario(rng *lib.Rng, max uint32, ncommits int, oversize bool) *scenari
 			if rng.Chance(50) {
 				i = stored - 1 - rng.Intn(min(stored, 3))
 			}
-			er := edgeReads(i, lens[i])
-			q := er[rng.Intn(len(er))]
+			q := pickRead(rng, i, lens[i])
 			if rng.Chance(15) {
 				L := lens[i]
 				a := rng.Intn(L + 14)
@@ -681,7 +713,7 @@ func corpus() []*scenario {
 	}
 	all := func(i, L int) []op {
 		var o []op
-		for _, q := range edgeReads(i, L) {
+		for _, q := range append(edgeReads(i, L), wrapReads(i, L)...) {
 			o = append(o, op{Kind: "read", Reads: []rd{q}})
 		}
 		return o
@@ -734,6 +766,10 @@ func corpus() []*scenario {
 		op{Kind: "read", Bulks: []bulk{{"blocks", []rd{rg(1, 0, 0), rg(2, 0, 0), rg(0, 0, 0)}}}},
 		op{Kind: "read", Bulks: []bulk{{"regions", []rd{rg(0, 0, 200), rg(1, 250, 1)}}}},
 		op{Kind: "read", Bulks: []bulk{{"blocks", []rd{rg(0, 0, 0), rg(7, 0, 0)}}}},
+		op{Kind: "read", Bulks: []bulk{{"regions", []rd{rg(0, 0, 200), {"region", 1, 0xfffffff8, 4}}}}},
+		op{Kind: "read", Bulks: []bulk{{"regions", []rd{{"region", 2, 0xfffffff4, 0}, rg(0, 0, 10)}}}},
+		op{Kind: "read", Bulks: []bulk{{"regions", []rd{rg(1, 0, 1), {"region", 0, 0xfffffffc, 4 + 200}}}}},
+		op{Kind: "read", Bulks: []bulk{{"regions", []rd{{"region", 1, 0xffffffff, 2}, {"region", 2, 0xfffffff8, 9}}}}},
 		op{Kind: "reopen"},
 		op{Kind: "read", Bulks: []bulk{{"regions", []rd{rg(2, 5, 100), rg(0, 0, 200), rg(1, 1, 1)}}}},
 		op{Kind: "read", Bulks: []bulk{{"headers", []rd{rg(0, 0, 0), rg(2, 0, 0)}}}})
